@@ -2162,7 +2162,11 @@ func checkCommandsApplied(c *Ctx, pr *prioRoles, rule string) {
 							}
 						}
 						touches := p.mayWriteMapField(cal, "inputs")
-						if fromCmd && touches {
+						// an addition registers its channel whatever the state of the discipline is (a
+						// removal may have nothing to remove)
+						if fromCmd && touches && role == "field:inputAdds" && !p.mustWriteMapField(cal, "inputs", 0) {
+							why = "the handler " + cal.Name() + " registers the added channel only on some paths: an AddInput that returned may have had no effect"
+						} else if fromCmd && touches {
 							ok = true
 						} else if fromCmd {
 							why = "the handler " + cal.Name() + " does not update the input table"
